@@ -469,6 +469,11 @@ pub fn ref_utxo(chain: &[BlockSpec], s: u64, last: u64) -> std::collections::BTr
 pub fn type_of(script: &[u8]) -> &'static str {
     let n = script.len();
     if n > 0 && script[0] == 0x6a { return "OpReturn"; }
+    if n > 0 && script[0] == 0x50 { return "Unspendable"; }                      // OP_RESERVED: provably unspendable
+    if n == 22 && script[0] == 0 && script[1] == 0x14 { return "Pay2WitnessPublicKeyHash"; }
+    if n == 34 && script[0] == 0 && script[1] == 0x20 { return "Pay2WitnessScriptHash"; }
+    if n == 34 && script[0] == 0x51 && script[1] == 0x20 { return "Pay2Taproot"; }
+    if n >= 4 && n <= 42 && (script[0] == 0 || (0x51..=0x60).contains(&script[0])) && script[1] as usize == n - 2 { return "WitnessProgram"; }
     if n == 25 && script[0] == 0x76 && script[24] == 0xac { return "Pay2PublicKeyHash"; }
     if (n == 35 && script[0] == 33 && script[34] == 0xac) || (n == 67 && script[0] == 65 && script[66] == 0xac) { return "Pay2PublicKey"; }
     if n == 23 && script[0] == 0xa9 && script[22] == 0x87 { return "Pay2ScriptHash"; }
